@@ -66,7 +66,10 @@ def run_vu(vu, prop, seed=0, open_findings=(), start=None, split_at=None):
             base = f.split(".<locals>.")[0]
             fi = prog.find_function(base)
             if fi is None:
-                raise Undecided("function under contract not found: %s (renamed or removed?)" % f)
+                if f == getattr(vu, "target", None) or f in getattr(vu, "required", ()):
+                    raise Undecided("function under contract not found: %s (renamed or removed?)" % f)
+                res["notes"].append("helper %s not present in this tree (it is executed by inlining when present)" % f)
+                continue
             res["function_sha"][f] = fi.source_sha()
         theory = core.Theory()
         stats = core.Stats()
